@@ -357,7 +357,7 @@ Definition LltInv (k : nat) (M : list R) : Prop :=
   length M = (n * n)%nat /\
   (forall r c, (r < k)%nat -> (c <= r)%nat -> (r < n)%nat ->
      a0 r c = rsum (fun i => mg n M r i * mg n M c i) (S c)) /\
-  (forall r, (r < k)%nat -> (r < n)%nat -> 0 < mg n M r r) /\
+  (forall r, (r < k)%nat -> (r < n)%nat -> 0 < mg n M r r /\ tiny <= mg n M r r * mg n M r r) /\
   (forall r c, (r < n)%nat -> (c < n)%nat -> (k <= r \/ r < c)%nat -> mg n M r c = a0 r c).
 
 (* the Cholesky pivot of row r given the rows before it *)
@@ -378,7 +378,7 @@ Proof.
   (* the finished off-diagonal entries of row r satisfy their equations *)
   assert (Hrow : forall c, (c < r)%nat -> a0 r c = rsum (fun i => mg n A1 r i * mg n M c i) (S c)).
   { intros c Hc. rewrite rsum_S. rewrite (P1 c Hc). rewrite (I3 r c) by (auto; lia).
-    specialize (I2 c Hc ltac:(lia)). field. lra. }
+    destruct (I2 c Hc ltac:(lia)) as [I2c _]. field. lra. }
   assert (Hpiv : mg n A2 r r = llt_pivot A1 r).
   { rewrite P2 by auto. rewrite !Nat.eqb_refl. simpl. unfold llt_pivot.
     rewrite (F1 r r) by (auto; lia). rewrite (I3 r r) by (auto; lia). reflexivity. }
@@ -414,7 +414,8 @@ Proof.
       * rewrite (I1 r' c) by (auto; lia). apply rsum_ext. intros i Hi.
         rewrite (Hoth r' i), (Hoth c i) by lia. reflexivity.
     + intros r' Hr' Hr'n. destruct (Nat.eq_dec r' r) as [->|Nr].
-      * rewrite P3 by auto. rewrite !Nat.eqb_refl. simpl. now apply sqrt_lt_R0.
+      * rewrite P3 by auto. rewrite !Nat.eqb_refl. simpl. split; [now apply sqrt_lt_R0|].
+        rewrite sqrt_sqrt by lra. lra.
       * rewrite Hoth by auto. apply I2; lia.
     + intros r' c' Hr' Hc' Hor. rewrite P3 by auto.
       destruct (Nat.eqb_spec r' r) as [->|Nr]; simpl.
